@@ -46,6 +46,9 @@ type vfcrigSpec struct {
 	Res       int64
 	Empty     bool
 	NoCompact bool
+	// Tombstones > 0: the block's meta.json reports that many tombstones (Stats.NumTombstones), as a block shipped from a
+	// Prometheus whose delete API was used does; the planner compacts such a block on its own.
+	Tombstones uint64
 }
 
 type vfcrigSet struct {
@@ -55,6 +58,32 @@ type vfcrigSet struct {
 	Vertical      bool
 	ReplicaLabels []string
 	Penalty       bool
+	// MultiResult: the Compactor hands back two result blocks for plans of four or more blocks (the Compactor interface allows
+	// several results): each half of the plan is compacted by the real LeveledCompactor.
+	MultiResult bool
+}
+
+// vfcrigSplitCompactor wraps the real compactor: a plan of >= 4 blocks is compacted as two halves (by time), giving two result blocks.
+type vfcrigSplitCompactor struct{ Compactor }
+
+func (s vfcrigSplitCompactor) CompactWithBlockPopulator(dest string, dirs []string, open []*tsdb.Block, bp tsdb.BlockPopulator) ([]ulid.ULID, error) {
+	if len(dirs) < 4 {
+		return s.Compactor.CompactWithBlockPopulator(dest, dirs, open, bp)
+	}
+	h := len(dirs) / 2
+	a, err := s.Compactor.CompactWithBlockPopulator(dest, dirs[:h], nil, bp)
+	if err != nil {
+		return nil, err
+	}
+	b, err := s.Compactor.CompactWithBlockPopulator(dest, dirs[h:], nil, bp)
+	if err != nil {
+		return nil, err
+	}
+	return append(a, b...), nil
+}
+
+func (s vfcrigSplitCompactor) Compact(dest string, dirs []string, open []*tsdb.Block) ([]ulid.ULID, error) {
+	return s.CompactWithBlockPopulator(dest, dirs, open, tsdb.DefaultBlockPopulator{})
 }
 
 func (s vfcrigSet) describe() map[string]any {
@@ -67,9 +96,12 @@ func (s vfcrigSet) describe() map[string]any {
 		if b.NoCompact {
 			d += " NO-COMPACT"
 		}
+		if b.Tombstones > 0 {
+			d += fmt.Sprintf(" TOMBSTONES=%d", b.Tombstones)
+		}
 		bl = append(bl, d)
 	}
-	return map[string]any{"name": s.Name, "blocks": bl, "ranges": s.Ranges, "vertical": s.Vertical, "replica_labels": s.ReplicaLabels, "penalty_dedup": s.Penalty}
+	return map[string]any{"name": s.Name, "blocks": bl, "ranges": s.Ranges, "vertical": s.Vertical, "replica_labels": s.ReplicaLabels, "penalty_dedup": s.Penalty, "multi_result_compactor": s.MultiResult}
 }
 
 // vfcrigBuild creates the blocks of a set on disk and uploads them (block.Upload) through bkt.
@@ -114,6 +146,16 @@ func vfcrigBuild(ctx context.Context, t testing.TB, bkt objstore.Bucket, set vfc
 			t.Fatalf("rig: create block: %v", errs[i])
 		}
 		id := ids[i]
+		if sp.Tombstones > 0 {
+			m, err := metadata.ReadFromDir(filepath.Join(dir, id.String()))
+			if err != nil {
+				t.Fatalf("rig: %v", err)
+			}
+			m.Stats.NumTombstones = sp.Tombstones
+			if err := m.WriteToDir(logger, filepath.Join(dir, id.String())); err != nil {
+				t.Fatalf("rig: %v", err)
+			}
+		}
 		if err := block.Upload(ctx, logger, bkt, filepath.Join(dir, id.String()), metadata.NoneFunc); err != nil {
 			t.Fatalf("rig: upload block: %v", err)
 		}
@@ -213,7 +255,11 @@ func vfcrigNewCompactor(ctx context.Context, set vfcrigSet, o vfcrigOpts, syncBk
 		planner = WithVerticalCompactionDownsampleFilter(largeIndexFilterPlanner, mutBkt, cnt())
 	}
 	blocksCleaner := NewBlocksCleaner(logger, mutBkt, ignoreDeletionMarkFilter, o.DeleteDelay, cnt(), cnt())
-	bc, err := NewBucketCompactor(logger, sy, grouper, planner, comp, compactDir, mutBkt, 1, false, blocksCleaner)
+	var compactor Compactor = comp
+	if set.MultiResult {
+		compactor = vfcrigSplitCompactor{Compactor: comp}
+	}
+	bc, err := NewBucketCompactor(logger, sy, grouper, planner, compactor, compactDir, mutBkt, 1, false, blocksCleaner)
 	if err != nil {
 		return nil, err
 	}
